@@ -1,6 +1,6 @@
 #!/bin/bash
 # runs every claimed quick (or $TIER) check sequentially; prints exit code and wall time
-cd /verif
+cd "$(dirname "$0")/.."
 for p in $(python3 -c "import json;print(' '.join(c['property_id'] for c in json.load(open('MANIFEST.json'))['checks']))"); do
   s=$(date +%s.%N)
   out=$(./check $p --tier ${TIER:-quick} 2>&1); rc=$?
